@@ -30,6 +30,7 @@ void profile_blast(RunCtx& ctx)
     XmlKnobs kn = draw_knobs(rng);
     kn.pad_text = false;
     kn.crlf = false;
+    kn.rate_before_invariant = false;  // list_blocks() computes label XPaths for the invariant-first order
     const Rng render_rng = rng.fork();
     // layouts in front of the fault site: leading blank lines, CRLF, comments, continuations
     static const std::vector<std::string> prefixes{"", "", "\n\n", "\r\n\r\n", "/* c */ ", "// c\n", " \\\n ", "\t", "/* a\n b */\n", "\n\r\n \n"};
